@@ -156,7 +156,8 @@ theorem C17_response_classified (e : Exec) :
 
 /-- finding `C17/http500-untranslated-exception` -/
 theorem finding_C17_http500_untranslated : implObs .otherExc = .http500 ∧ specObs .otherExc = .raw := ⟨rfl, rfl⟩
-/-- finding `C17/description-unavailable-empty` (USE, BEGIN, COMMIT/ROLLBACK inside a transaction) -/
+/-- finding `C17/description-unavailable-empty` (a row-less result that cannot be described: an empty result with a
+    LIST-typed column; before the status-row fix 1f4a227 also USE, BEGIN, COMMIT/ROLLBACK inside a transaction) -/
 theorem finding_C17_description_empty (rc : Nat) :
     implObs (.ok false 0 rc) = .ok 0 rc .empty ∧ specObs (.ok false 0 rc) = .ok 0 rc .raises := ⟨rfl, rfl⟩
 /-- finding `C17/http500-undescribable-rows` (TRUNCATE, HUGEINT/LIST result columns) -/
